@@ -1,8 +1,8 @@
 """C12 - colour and font references resolve to what the user asked for.
 
 R12.1 typestate over the call graph: every call chain from rtf_encode to a context-dependent colour
-index lookup passes a call site that is dominated by set_document_context(document) and not
-preceded by clear_document_context; R12.2 table/index pipeline agreement; R12.3 collector covers
+index lookup is entered with the document colour context established (set_document_context or a `with`
+on a context manager that sets it; must-analysis over CFGs) and not yet cleared; R12.2 table/index pipeline agreement; R12.3 collector covers
 every (component, colour attribute) that an emitter turns into an index; R12.4 master table
 integrity; R12.5 font table / font reference agreement.
 """
@@ -15,127 +15,469 @@ from ..absint import NOC
 from ..callgraph import CallGraph
 from ..cfg import CFG, own_parts
 from ..consteval import const_call, const_name
+from ..effects import bound_arg
 from ..pm import AnalysisError, dotted, unparse, walk_no_nested
 from ..report import Ctx
 
 SINK = "Utils._get_color_index"
 ENTRY = "RTFDocument.rtf_encode"
+SET, CLEAR, LOOKUP = "set_document_context", "clear_document_context", "get_rtf_color_index"
 
 
-def _ctx_calls(node, name):
-    return [c for c in ast.walk(node) if isinstance(c, ast.Call) and dotted(c.func).split(".")[-1] == name]
+def _last(c: ast.Call) -> str:
+    return dotted(c.func).split(".")[-1]
+
+
+def _is_none(e: ast.AST | None) -> bool:
+    return isinstance(e, ast.Constant) and e.value is None
+
+
+def must_execute(stmts, pred) -> bool:
+    """does every normal run through the statement list evaluate an expression satisfying `pred`? (structural)"""
+    def expr_has(e) -> bool:
+        return e is not None and any(pred(x) for x in ast.walk(e))
+
+    for s in stmts:
+        if isinstance(s, (ast.FunctionDef, ast.AsyncFunctionDef, ast.ClassDef)):
+            continue
+        if isinstance(s, ast.If):
+            if expr_has(s.test) or (s.orelse and must_execute(s.body, pred) and must_execute(s.orelse, pred)):
+                return True
+        elif isinstance(s, (ast.For, ast.AsyncFor)):
+            if expr_has(s.iter):
+                return True
+        elif isinstance(s, ast.While):
+            if expr_has(s.test):
+                return True
+        elif isinstance(s, (ast.With, ast.AsyncWith)):
+            if any(expr_has(i.context_expr) for i in s.items) or must_execute(s.body, pred):
+                return True
+        elif isinstance(s, ast.Try):
+            if must_execute(s.finalbody, pred) or (not s.handlers and must_execute(s.body, pred)):
+                return True
+        elif pred(s) or expr_has(s):
+            return True
+        if isinstance(s, (ast.Return, ast.Raise, ast.Break, ast.Continue)):
+            return False
+    return False
+
+
+class ColourContext:
+    """The protocol around the per-encode colour context, recognised by role:
+
+    * the *state* is whatever ColorService.set_document_context writes (a ContextVar, or an attribute of the service);
+    * a *set* site establishes it: a call of set_document_context, a primitive write of a non-None value, or entering a
+      `with` on a context manager (a @contextmanager generator) that establishes it on every path to its yield;
+    * a *clear* site releases it: clear_document_context, a primitive write of None / ContextVar.reset, or leaving
+      such a `with` (on the exits on which the manager clears);
+    * a *read* is ContextVar.get() / a load of the attribute.
+    A forward must-analysis over each function's CFG (with exceptional edges) gives "is the context established here",
+    and is propagated over the call graph from the entry point (typestate)."""
+
+    def __init__(self, pm, cg: CallGraph):
+        self.pm, self.cg = pm, cg
+        setters = [f for f in pm.funcs.values() if f.name == SET and f.cls]
+        clearers = [f for f in pm.funcs.values() if f.name == CLEAR and f.cls]
+        if not setters:
+            raise AnalysisError(f"no method {SET} found: the colour context API cannot be re-identified")
+        self.setter = setters[0]
+        self.clearer = clearers[0] if clearers else None
+        self.owner = self.setter.cls
+        self.cvars: set[str] = set()
+        self.attrs: set[str] = set()
+        for n in walk_no_nested(self.setter.node):
+            if isinstance(n, ast.Call) and isinstance(n.func, ast.Attribute) and n.func.attr == "set" and isinstance(n.func.value, ast.Name):
+                r = pm.resolve(self.setter.module, n.func.value.id)
+                if r and r[0] == "value" and isinstance(r[1][1], ast.Call) and dotted(r[1][1].func).split(".")[-1] == "ContextVar":
+                    self.cvars.add(n.func.value.id)
+            elif isinstance(n, (ast.Assign, ast.AnnAssign)):
+                for t in (n.targets if isinstance(n, ast.Assign) else [n.target]):
+                    if isinstance(t, ast.Attribute) and isinstance(t.value, ast.Name) and t.value.id in ("self", "cls"):
+                        self.attrs.add(t.attr)
+        self._cm: dict[str, dict | None] = {}
+        self._info: dict[str, tuple] = {}
+        self._flow: dict[tuple[str, bool], dict] = {}
+        self.unrecognised: list[str] = []
+
+    # ---- primitive operations on the state --------------------------------------------------------
+    def prim(self, n: ast.AST) -> str | None:
+        """'set' | 'clear' | 'read' for a node that touches the state directly"""
+        if isinstance(n, ast.Call) and isinstance(n.func, ast.Attribute) and isinstance(n.func.value, ast.Name) and n.func.value.id in self.cvars:
+            if n.func.attr == "set":
+                return "clear" if (n.args and _is_none(n.args[0])) else "set"
+            if n.func.attr == "reset":
+                return "clear"
+            if n.func.attr == "get":
+                return "read"
+        if isinstance(n, ast.Attribute) and n.attr in self.attrs and isinstance(n.value, ast.Name):
+            if isinstance(n.ctx, ast.Load):
+                return "read"
+            par = getattr(n, "_parent", None)
+            if isinstance(par, (ast.Assign, ast.AnnAssign)):
+                return "clear" if _is_none(par.value) else "set"
+            if isinstance(par, ast.Delete):
+                return "clear"
+        return None
+
+    def op_of_call(self, c: ast.Call) -> str | None:
+        nm = _last(c)
+        if nm == SET:
+            return "set"
+        if nm == CLEAR:
+            return "clear"
+        p = self.prim(c)
+        return p if p in ("set", "clear") else None
+
+    def touches(self, fn: ast.AST) -> bool:
+        for n in walk_no_nested(fn):
+            if isinstance(n, ast.Call) and self.op_of_call(n):
+                return True
+            if isinstance(n, ast.Attribute) and not isinstance(n.ctx, ast.Load) and self.prim(n):
+                return True
+        return False
+
+    # ---- context managers ---------------------------------------------------------------------------
+    def cm_summary(self, fi) -> dict | None:
+        """for a @contextmanager generator that touches the context: does it establish the context on every path to its
+        yield, does it clear it when the block ends normally / with an exception, which parameter is the document"""
+        if fi.short in self._cm:
+            return self._cm[fi.short]
+        self._cm[fi.short] = None
+        if not any(d.split(".")[-1] == "contextmanager" for d in fi.decorators) or not self.touches(fi.node):
+            return None
+        ys = [y for y in walk_no_nested(fi.node) if isinstance(y, (ast.Yield, ast.YieldFrom))]
+        if not ys:
+            return None
+        g, sets, clears, _weak = self.info(fi, as_manager=True)
+        ins = self.flow(fi, False, as_manager=True)
+        at_yield, normal, exc = [], [], []
+        for y in ys:
+            nodes = [n for n in g.node_containing(y) if id(n) in ins]
+            if not nodes:
+                continue
+            at_yield.append((y, all(ins[id(n)] for n in nodes)))
+            if not at_yield[-1][1]:
+                continue            # nothing established on this path: nothing to clear
+            normal.append(all(g.must_pass(s, clears, [g.exit], exceptional=False) for n in nodes for s in n.succ))
+            prot = False
+            p = getattr(y, "_parent", None)
+            child = y
+            while p is not None and p is not fi.node:
+                if isinstance(p, ast.Try) and any(x is child for x in p.body):
+                    is_clear = lambda x: (isinstance(x, ast.Call) and self.op_of_call(x) == "clear") or \
+                        (isinstance(x, ast.Attribute) and not isinstance(x.ctx, ast.Load) and self.prim(x) == "clear")
+                    if must_execute(p.finalbody, is_clear):
+                        prot = True
+                    catch_all = [h for h in p.handlers if h.type is None or dotted(h.type) in ("BaseException",)]
+                    if catch_all and all(must_execute(h.body, is_clear) for h in catch_all):
+                        prot = True
+                child, p = p, getattr(p, "_parent", None)
+            exc.append(prot)
+        doc_param = None
+        params = [a.arg for a in list(fi.node.args.posonlyargs) + list(fi.node.args.args)]
+        for c in walk_no_nested(fi.node):
+            if isinstance(c, ast.Call) and _last(c) == SET:
+                a0 = bound_arg(c, self.setter, "document") if "document" in [a.arg for a in self.setter.node.args.args] else (c.args[0] if c.args else None)
+                if isinstance(a0, ast.Name) and a0.id in params:
+                    doc_param = a0.id
+        out = {"fi": fi, "yields": at_yield, "establishes": bool(at_yield) and all(st for _, st in at_yield),
+               "sets": bool(sets), "clears_normal": bool(normal) and all(normal), "clears_exc": bool(exc) and all(exc),
+               "doc_param": doc_param}
+        self._cm[fi.short] = out
+        return out
+
+    def manager_of(self, fi, call: ast.Call) -> dict | None:
+        for c in self.cg.resolve_call(fi, call):
+            sm = self.cm_summary(c)
+            if sm is not None:
+                return sm
+        return None
+
+    # ---- per-function sites ---------------------------------------------------------------------------
+    def info(self, fi, as_manager: bool = False):
+        """(cfg, set nodes, clear nodes, weak-set nodes) of a function"""
+        key = fi.short
+        if key in self._info:
+            return self._info[key]
+        g = CFG(fi.node)
+        sets, clears, weak = [], [], []
+        with_items = {}
+        for nd in g.nodes:
+            if nd.ast is None:
+                continue
+            if nd.label == "with-enter":
+                for it in nd.ast.items:
+                    if isinstance(it.context_expr, ast.Call):
+                        sm = self.manager_of(fi, it.context_expr)
+                        if sm is not None:
+                            with_items[id(it.context_expr)] = sm
+                            if sm["sets"]:
+                                (sets if sm["establishes"] else weak).append(nd)
+                            for x in g.nodes:
+                                if x.kind == "withexit" and x.ast is nd.ast:
+                                    if (x.label == "with-exit(exc)" and sm["clears_exc"]) or (x.label != "with-exit(exc)" and sm["clears_normal"]):
+                                        clears.append(x)
+            for part in own_parts(nd):
+                for n in ast.walk(part):
+                    if isinstance(n, ast.Call):
+                        op = self.op_of_call(n)
+                        if op == "set" and nd not in sets:
+                            sets.append(nd)
+                        elif op == "clear" and nd not in clears:
+                            clears.append(nd)
+                        elif op is None and id(n) not in with_items and not as_manager and self.manager_of(fi, n) is not None:
+                            self.unrecognised.append(f"{fi.short}: context manager `{unparse(n)[:60]}` is used outside a with statement")
+                    elif isinstance(n, ast.Attribute) and not isinstance(n.ctx, ast.Load):
+                        op = self.prim(n)
+                        if op == "set" and nd not in sets:
+                            sets.append(nd)
+                        elif op == "clear" and nd not in clears:
+                            clears.append(nd)
+        self._info[key] = (g, sets, clears, weak)
+        return self._info[key]
+
+    def is_binder(self, fi) -> bool:
+        if fi.cls == self.owner:
+            return False
+        _, sets, clears, weak = self.info(fi)
+        return bool(sets or clears or weak)
+
+    def flow(self, fi, incoming: bool, as_manager: bool = False) -> dict:
+        """id(cfg node) -> is the context established on every path reaching the node (live nodes only)"""
+        key = (fi.short, incoming)
+        if key in self._flow:
+            return self._flow[key]
+        g, sets, clears, _ = self.info(fi, as_manager)
+        sset, cset = {id(n) for n in sets}, {id(n) for n in clears}
+        live = g.reachable(g.entry)
+        nodes = [n for n in g.nodes if id(n) in live]
+        preds: dict[int, list] = {id(n): [] for n in nodes}
+        for n in nodes:
+            for s in n.succ:
+                if id(s) in preds:
+                    preds[id(s)].append((n, False))
+            for s in n.xsucc:
+                if id(s) in preds:
+                    preds[id(s)].append((n, True))
+        ins = {id(n): True for n in nodes}
+        ins[id(g.entry)] = incoming
+
+        def out(p, exc):
+            if id(p) in cset:
+                return False
+            if id(p) in sset:
+                return ins[id(p)] if exc else True
+            return ins[id(p)]
+        changed = True
+        while changed:
+            changed = False
+            for n in nodes:
+                if n is g.entry:
+                    continue
+                new = all(out(p, x) for p, x in preds[id(n)])
+                if new != ins[id(n)]:
+                    ins[id(n)] = new
+                    changed = True
+        self._flow[key] = ins
+        return ins
+
+    def state_at(self, fi, node: ast.AST, incoming: bool) -> bool:
+        g, sets, clears, _ = self.info(fi)
+        if not sets and not clears:
+            return incoming
+        ins = self.flow(fi, incoming)
+        holders = g.node_containing(node)
+        if not holders:
+            return incoming
+        livehold = [n for n in holders if id(n) in ins]
+        if not livehold:
+            return True          # unreachable code executes nothing
+        return all(ins[id(n)] for n in livehold)
+
+    def after_clear(self, fi, node: ast.AST) -> bool:
+        g, _, clears, _ = self.info(fi)
+        live = g.reachable(g.entry)
+        hold = {id(n) for n in g.node_containing(node)}
+        return any(hold & g.reachable(s) for c in clears if id(c) in live for s in c.succ)
+
+    # ---- typestate over the call graph ------------------------------------------------------------------
+    def typestate(self, entry: str):
+        pm, cg = self.pm, self.cg
+        children: dict[str, list[str]] = {}
+        for f in pm.funcs.values():
+            if f.parent is not None:
+                children.setdefault(f.parent.short, []).append(f.short)
+        start = (entry, False)
+        seen = {start}
+        work = [start]
+        edges: dict[tuple, list] = {}
+        while work:
+            node = work.pop()
+            short, state = node
+            fi = pm.funcs.get(short)
+            if fi is None:
+                continue
+            out = []
+            for call, cands in cg.sites.get(short, []):
+                if not cands:
+                    continue
+                st = self.state_at(fi, call, state)
+                for c in cands:
+                    out.append((call, (c.short, st)))
+            for ch in children.get(short, []):
+                out.append((None, (ch, state)))
+            edges[node] = out
+            for _, tgt in out:
+                if tgt not in seen:
+                    seen.add(tgt)
+                    work.append(tgt)
+        return seen, edges
+
+    def precisely_reached(self, entry: str, edges) -> set:
+        """the (function, state) nodes reachable without using a call edge that was resolved by method name only"""
+        start = (entry, False)
+        seen = {start}
+        work = [start]
+        while work:
+            n = work.pop()
+            for call, tgt in edges.get(n, []):
+                if call is not None and id(call) in self.cg.imprecise:
+                    continue
+                if tgt not in seen:
+                    seen.add(tgt)
+                    work.append(tgt)
+        return seen
+
+    def culprits(self, entry: str, seen, edges, sinks: set[str]):
+        """call sites at which the context is decided to be absent on a path to a sink: the out-of-context call edges of the
+        innermost function that manages the context (a binder), or of the entry point when no binder is on the path.
+        -> list of (function node, call, callee node, path of function names to the sink)"""
+        preds: dict[tuple, list] = {}
+        for n, outs in edges.items():
+            for call, tgt in outs:
+                preds.setdefault(tgt, []).append((n, call))
+        bad = [(s, False) for s in sorted(sinks) if (s, False) in seen]
+        visited = set(bad)
+        nxt: dict[tuple, tuple] = {}
+        queue = list(bad)
+        found = []
+        while queue:
+            n = queue.pop(0)
+            for p, call in preds.get(n, []):
+                pfi = self.pm.funcs.get(p[0])
+                if pfi is None:
+                    continue
+                if p[0] == entry or self.is_binder(pfi):
+                    path = [n[0]]
+                    x = n
+                    while x in nxt:
+                        x = nxt[x]
+                        path.append(x[0])
+                    found.append((p, call, n, path))
+                    continue
+                if p not in visited:
+                    visited.add(p)
+                    nxt[p] = n
+                    queue.append(p)
+        return found
+
+
+def lookup_sinks(pm, cc: ColourContext) -> list:
+    """functions outside the colour service that resolve a colour index through the context (no explicit colour list)"""
+    out = []
+    params = [a.arg for a in pm.func(f"{cc.owner}.{LOOKUP}").node.args.args] if pm.has_func(f"{cc.owner}.{LOOKUP}") else []
+    for fi in pm.iter_funcs():
+        if fi.cls == cc.owner:
+            continue
+        for c in walk_no_nested(fi.node):
+            if isinstance(c, ast.Call) and _last(c) == LOOKUP:
+                second = c.args[1] if len(c.args) >= 2 else next((k.value for k in c.keywords if k.arg == "used_colors"), None)
+                explicit = second is not None and not _is_none(second)
+                if explicit and isinstance(second, ast.Name):
+                    # a parameter that defaults to None is handed through: callers may leave it out
+                    a = fi.node.args
+                    pos = list(a.posonlyargs) + list(a.args)
+                    dflt = dict(zip([x.arg for x in pos][len(pos) - len(a.defaults):], a.defaults))
+                    dflt.update({k.arg: d for k, d in zip(a.kwonlyargs, a.kw_defaults) if d is not None})
+                    if second.id in dflt and _is_none(dflt[second.id]):
+                        explicit = False
+                if not explicit and fi not in out:
+                    out.append(fi)
+    return out
 
 
 def r12_1(ctx: Ctx, cg: CallGraph) -> None:
     pm = ctx.pm
-    sink = pm.func(SINK)
-    # the sink needs the context only when it calls get_rtf_color_index without explicit colours
-    needs = any(dotted(c.func).endswith("get_rtf_color_index") for c in walk_no_nested(sink.node) if isinstance(c, ast.Call))
-    if not needs:
-        raise AnalysisError(f"{SINK} no longer resolves indices through get_rtf_color_index")
-    cfgs: dict[str, tuple] = {}
-
-    def site_state(fi, call, incoming: bool) -> bool:
-        """is the context established when `call` in `fi` executes?"""
-        if fi.short not in cfgs:
-            g = CFG(fi.node)
-            sets = [nd for nd in g.nodes if nd.ast is not None and any(_ctx_calls(p, "set_document_context") for p in own_parts(nd))]
-            clears = [nd for nd in g.nodes if nd.ast is not None and any(_ctx_calls(p, "clear_document_context") for p in own_parts(nd))]
-            cfgs[fi.short] = (g, sets, clears)
-        g, sets, clears = cfgs[fi.short]
-        nodes = g.node_containing(call)
-        if not nodes:
-            return incoming
-        nd = nodes[0]
+    cc = ColourContext(pm, cg)
+    sinks = lookup_sinks(pm, cc)
+    if not sinks:
+        raise AnalysisError(f"no function resolves colour indices through {LOOKUP} with the document context any more")
+    seen, edges = cc.typestate(ENTRY)
+    entered = sorted({s for s, _ in seen})
+    ctx.extra["functions_on_typestate_graph"] = len(entered)
+    n_sites = sum(len(v) for v in edges.values())
+    for sk in sinks:
+        states = sorted({st for s, st in seen if s == sk.short})
+        ctx.instance("R12.1", sk.where(), f"{sk.short} entered with context states {states} over {len(entered)} functions / {n_sites} call edges")
+        if not states:
+            ctx.gap("R12.1", f"{sk.short} is not reachable from {ENTRY} on the call graph")
+    for p, call, n, path in cc.culprits(ENTRY, seen, edges, {s.short for s in sinks}):
+        fi = pm.funcs[p[0]]
+        late = call is not None and cc.after_clear(fi, call)
+        path_txt = " -> ".join(dict.fromkeys([p[0]] + path))
+        why = "after the context was cleared" if late else ("before / without establishing the context" if cc.is_binder(fi) else "and no function on the path establishes the context")
+        ctx.violation("R12.1", p[0], "lookup without context via " + n[0], fi.where(call) if call is not None else fi.where(),
+                      f"colour index lookup reached without an established document colour context: {p[0]} calls {n[0]} {why}: {path_txt}; "
+                      "indices then refer to the full 657-colour table (or a stale palette) while the document carries its own dense table")
+    # binders: the context document is the document being encoded; nobody re-binds an established context
+    precise = cc.precisely_reached(ENTRY, edges)
+    binders = [pm.funcs[s] for s in entered if s in pm.funcs and pm.funcs[s].cls != cc.owner and (cc.info(pm.funcs[s])[1] or cc.info(pm.funcs[s])[3])]
+    for fi in binders:
+        g, sets, _clears, weak = cc.info(fi)
+        params = [a.arg for a in list(fi.node.args.posonlyargs) + list(fi.node.args.args)]
         live = g.reachable(g.entry)
-        if id(nd) not in live:
-            return True    # unreachable code cannot execute a lookup
-        after_clear = any(id(nd) in g.reachable(s) for c in clears for s in c.succ if id(c) in live)
-        dom = g.dominators()
-        by_set = any(id(s) in dom.get(id(nd), set()) and s is not nd for s in sets)
-        if by_set and not after_clear:
-            return True
-        if after_clear:
-            return False
-        return incoming
-
-    # worklist over (function, state)
-    seen: set[tuple[str, bool]] = set()
-    work = [(ENTRY, False, [])]
-    bad_chains = []
-    n_sites = 0
-    while work:
-        short, state, chain = work.pop()
-        if (short, state) in seen:
-            continue
-        seen.add((short, state))
-        fi = pm.funcs.get(short)
+        for nd in sets + weak:
+            if id(nd) not in live:
+                continue
+            for part in own_parts(nd):
+                for c in ast.walk(part):
+                    if not isinstance(c, ast.Call):
+                        continue
+                    sm = cc.manager_of(fi, c) if nd.label == "with-enter" else None
+                    if sm is not None:
+                        arg_e = bound_arg(c, sm["fi"], sm["doc_param"]) if sm["doc_param"] else None
+                    elif _last(c) == SET:
+                        arg_e = bound_arg(c, cc.setter, "document") or (c.args[0] if c.args else None)
+                    else:
+                        continue
+                    arg = unparse(arg_e) if arg_e is not None else "?"
+                    ctx.instance("R12.1", fi.where(c), f"{fi.short}: context established for {arg} by `{unparse(c)[:60]}`")
+                    if arg_e is None:
+                        ctx.gap("R12.1", f"{fi.short}: the document passed to `{unparse(c)[:60]}` cannot be identified")
+                    elif arg not in params:
+                        ctx.violation("R12.1", fi.short, f"context document {arg}", fi.where(c), f"{fi.short}: the colour context is not set from the document being encoded ({arg})")
+                    for st in (True, False):
+                        if (fi.short, st) in precise and id(nd) in cc.flow(fi, st) and cc.flow(fi, st)[id(nd)]:
+                            ctx.violation("R12.1", fi.short, "context re-bound " + unparse(c)[:60], fi.where(c),
+                                          f"{fi.short} re-binds the colour context (`{unparse(c)[:60]}`) while one is already established; in multi-section documents it "
+                                          "receives a per-section copy, so indices are numbered against a section's palette while the colour table is generated from the whole document")
+    for msg in cc.unrecognised:
+        ctx.gap("R12.1", msg)
+    # the colour table is generated from the document being encoded
+    for s in entered:
+        fi = pm.funcs.get(s)
         if fi is None:
             continue
-        if short == SINK:
-            if not state:
-                bad_chains.append(chain)
-            continue
-        for call, cands in cg.sites.get(short, []):
-            for c in cands:
-                st = site_state(fi, call, state)
-                n_sites += 1
-                work.append((c.short, st, chain + [(short, call)]))
-        for other in pm.funcs.values():
-            if other.parent is fi:
-                work.append((other.short, state, chain))
-    entered = sorted({s for s, st in seen})
-    ctx.extra["functions_on_typestate_graph"] = len(entered)
-    ok_states = [st for s, st in seen if s == SINK]
-    ctx.instance("R12.1", pm.func(SINK).where(), f"{SINK} entered with context states {sorted(set(ok_states))} over {len(entered)} functions / {n_sites} call edges")
-    reported = set()
-    for chain in bad_chains:
-        # report at the first function of the chain that is an encode path
-        names = [c[0] for c in chain]
-        head = next((nm for nm in names if nm.startswith("UnifiedRTFEncoder.")), names[0])
-        key = head + " -> " + names[-1]
-        if key in reported:
-            continue
-        reported.add(key)
-        first = next((c for c in chain if c[0] == head), chain[0])
-        fi = pm.funcs[first[0]]
-        path_txt = " -> ".join(dict.fromkeys(names))
-        ctx.violation("R12.1", head, "lookup without context via " + names[-1], fi.where(first[1]),
-                      f"colour index lookup reached without an established document colour context: {path_txt} -> {SINK}; "
-                      "indices then refer to the full 657-colour table while the document carries its own dense table")
-    # the context document must be the one whose colour table is emitted
-    for short in ("UnifiedRTFEncoder.encode",):
-        fi = pm.func(short)
-        sets = _ctx_calls(fi.node, "set_document_context")
-        for s in sets:
-            arg = unparse(s.args[0]) if s.args else "?"
-            ctx.instance("R12.1", fi.where(s), f"{short}: set_document_context({arg})")
-            params = [a.arg for a in fi.node.args.args]
-            if not s.args or arg not in params:
-                ctx.violation("R12.1", short, f"context document {arg}", fi.where(s), f"{short}: the colour context is not set from the document being encoded ({arg})")
-    # nobody else re-binds the context: the dense table is generated from the document given to `encode`
-    for fi2 in pm.iter_funcs():
-        if fi2.cls == "ColorService" or fi2.short == "UnifiedRTFEncoder.encode":
-            continue
-        for c in walk_no_nested(fi2.node):
-            if isinstance(c, ast.Call) and dotted(c.func).split(".")[-1] == "set_document_context":
-                from ..cfg import CFG as _CFG
-                g2 = _CFG(fi2.node)
-                live = g2.reachable(g2.entry)
-                if not any(id(nd) in live for nd in g2.node_containing(c)):
+        params = [a.arg for a in list(fi.node.args.posonlyargs) + list(fi.node.args.args)]
+        for c in walk_no_nested(fi.node):
+            if isinstance(c, ast.Call) and _last(c) == "encode_color_table" and (c.args or c.keywords):
+                arg_e = c.args[0] if c.args else next((k.value for k in c.keywords if k.arg == "document"), None)
+                if arg_e is None:
                     continue
-                ctx.violation("R12.1", fi2.short, "context re-bound " + unparse(c)[:60], fi2.where(c),
-                              f"{fi2.short} re-binds the colour context (`{unparse(c)[:60]}`); in multi-section documents it receives a per-section copy, so indices are "
-                              "numbered against a section's palette while the colour table is generated from the whole document")
-    for short in ("UnifiedRTFEncoder.encode", "UnifiedRTFEncoder._encode_multi_section", "UnifiedRTFEncoder._encode_figure_only"):
-        fi = pm.func(short)
-        ect = [c for c in ast.walk(fi.node) if isinstance(c, ast.Call) and dotted(c.func).endswith("encode_color_table")]
-        params = [a.arg for a in fi.node.args.args]
-        for c in ect:
-            arg = unparse(c.args[0]) if c.args else "?"
-            ctx.instance("R12.1", fi.where(c), f"{short}: encode_color_table({arg})")
-            if arg not in params:
-                ctx.violation("R12.1", short, f"colour table of {arg}", fi.where(c), f"{short}: colour table is generated from {arg}, not from the document being encoded")
+                arg = unparse(arg_e)
+                ctx.instance("R12.1", fi.where(c), f"{fi.short}: encode_color_table({arg})")
+                if arg not in params:
+                    ctx.violation("R12.1", fi.short, f"colour table of {arg}", fi.where(c), f"{fi.short}: colour table is generated from {arg}, not from the document being encoded")
     ctx.floor("R12.1", 4)
 
 
@@ -148,94 +490,211 @@ def _rename(e: ast.AST, name: str) -> str:
     return unparse(e2)
 
 
-def _norm_filter(comp: ast.AST) -> str | None:
-    if isinstance(comp, ast.ListComp) and len(comp.generators) == 1:
-        g = comp.generators[0]
-        if isinstance(comp.elt, ast.Name) and isinstance(g.target, ast.Name) and comp.elt.id == g.target.id:
-            return " and ".join(_rename(c, g.target.id) for c in g.ifs)
-    return None
+def _conjuncts(e: ast.AST) -> list[ast.AST]:
+    if isinstance(e, ast.BoolOp) and isinstance(e.op, ast.And):
+        return [c for v in e.values for c in _conjuncts(v)]
+    return [e]
+
+
+def _dense_pipelines(fi) -> list[dict]:
+    """sort steps of a function that order a filtered and/or validated colour list: sorted(validate(filter(src)), key=...),
+    recognised through temporaries; the filter is reported as a set of conjuncts over the element `X`"""
+    from ..astmatch import resolve
+    out = []
+    for n in walk_no_nested(fi.node):
+        if not isinstance(n, ast.Call):
+            continue
+        if dotted(n.func) == "sorted" and n.args:
+            arg = n.args[0]
+        elif isinstance(n.func, ast.Attribute) and n.func.attr == "sort" and not n.args:
+            arg = n.func.value
+        else:
+            continue
+        chain = resolve(arg, fi.node)
+        filt, validated = None, False
+        for x in ast.walk(chain):
+            if isinstance(x, (ast.ListComp, ast.GeneratorExp)) and len(x.generators) == 1 and x.generators[0].ifs \
+                    and isinstance(x.generators[0].target, ast.Name) and isinstance(x.elt, ast.Name) and x.elt.id == x.generators[0].target.id:
+                g = x.generators[0]
+                filt = frozenset(_rename(c, g.target.id) for i in g.ifs for c in _conjuncts(i))
+            if isinstance(x, ast.Call) and _last(x) == "validate_color_list":
+                validated = True
+        if filt is None and not validated:
+            continue
+        key = next((k.value for k in n.keywords if k.arg == "key"), None)
+        if key is None:
+            keytxt = None
+        elif isinstance(key, ast.Lambda) and key.args.args:
+            keytxt = _rename(key.body, key.args.args[0].arg)
+        else:
+            keytxt = unparse(key)
+        rev = next((unparse(k.value) for k in n.keywords if k.arg == "reverse"), None)
+        par = getattr(n, "_parent", None)
+        names = [t.id for t in par.targets if isinstance(t, ast.Name)] if isinstance(par, ast.Assign) else \
+            ([arg.id] if isinstance(arg, ast.Name) and dotted(n.func) != "sorted" else [])
+        out.append({"node": n, "filter": filt, "validate": validated, "key": keytxt if rev in (None, "False") else f"{keytxt} reversed", "names": names})
+    return out
+
+
+def _show_pipe(p: dict) -> str:
+    f = " and ".join(sorted(p["filter"])) if p["filter"] is not None else None
+    return f"filter `{f}` validate={p['validate']} sort key `{p['key']}`"
 
 
 def r12_2(ctx: Ctx) -> None:
+    from ..astmatch import assignments, guard_atoms, guards, mutated, resolve
+    from ..linform import linform
     pm = ctx.pm
     gen = pm.func("ColorService.generate_rtf_color_table")
     idx = pm.func("ColorService.get_rtf_color_index")
+    pgs, pis = _dense_pipelines(gen), _dense_pipelines(idx)
+    if len(pgs) != 1 or len(pis) != 1:
+        ctx.gap("R12.2", f"the filter/validate/sort pipeline could not be re-identified ({len(pgs)} in {gen.short}, {len(pis)} in {idx.short})")
+        return
+    pg, pi = pgs[0], pis[0]
+    ctx.instance("R12.2", gen.where(), "table pipeline: " + _show_pipe(pg))
+    ctx.instance("R12.2", idx.where(), "index pipeline: " + _show_pipe(pi))
+    if (pg["filter"], pg["validate"], pg["key"]) != (pi["filter"], pi["validate"], pi["key"]):
+        ctx.violation("R12.2", "ColorService", f"pipelines differ: {_show_pipe(pg)} vs {_show_pipe(pi)}", idx.where(),
+                      f"colour table and colour index are computed by different pipelines: table {_show_pipe(pg)}, index {_show_pipe(pi)}")
+    for fi, p in ((gen, pg), (idx, pi)):
+        if p["key"] is None or "reversed" in str(p["key"]):
+            ctx.violation("R12.2", fi.short, f"sort key {p['key']}", fi.where(p["node"]), "dense colour list is not ordered by the master index")
+        elif "_name_to_type" not in p["key"] and "get_color_index" not in p["key"]:
+            ctx.gap("R12.2", f"{fi.short}: sort key `{p['key']}` is not recognised as the master index")
+    # ---- table: one entry per sorted colour, unconditionally, after a single leading default entry
+    S = set(pg["names"])
+    asg = assignments(gen.node)
+    mut = mutated(gen.node)
+    derived = set(S)
+    for _ in range(4):
+        for nm, vals in asg.items():
+            if nm not in derived and any(isinstance(x, ast.Name) and x.id in derived for v in vals for x in ast.walk(v)):
+                derived.add(nm)
 
-    def pipeline(fi):
-        filt = srt = None
-        for n in walk_no_nested(fi.node):
-            if isinstance(n, ast.Assign) and isinstance(n.value, ast.ListComp):
-                f = _norm_filter(n.value)
-                if f and "black" in f:
-                    filt = f
-            if isinstance(n, ast.Call) and dotted(n.func) == "sorted" and n.keywords:
-                key = next((k.value for k in n.keywords if k.arg == "key"), None)
-                if isinstance(key, ast.Lambda):
-                    srt = _rename(key.body, key.args.args[0].arg)
-        val = any(dotted(c.func).endswith("validate_color_list") for c in walk_no_nested(fi.node) if isinstance(c, ast.Call))
-        return filt, val, srt
+    def classify(e, depth=5):
+        while isinstance(e, ast.Call) and isinstance(e.func, ast.Name) and e.func.id in ("list", "tuple", "iter", "enumerate") and e.args:
+            e = e.args[0]
+        if isinstance(e, ast.Name) and e.id in S:
+            return ("same", None)
+        if e is pg["node"]:
+            return ("same", None)
+        if isinstance(e, ast.Name) and depth > 0 and e.id not in mut and len(asg.get(e.id, [])) == 1 and not isinstance(asg[e.id][0], ast.Constant):
+            return classify(asg[e.id][0], depth - 1)
+        if isinstance(e, (ast.ListComp, ast.GeneratorExp)) and len(e.generators) == 1:
+            c = classify(e.generators[0].iter, depth - 1)
+            if c and c[0] in ("same", "mapped"):
+                return ("filtered", unparse(e)[:60]) if e.generators[0].ifs else ("mapped", e.elt)
+            return c
+        if any(isinstance(x, ast.Name) and x.id in derived for x in ast.walk(e)):
+            return ("derived", unparse(e)[:60])
+        return None
 
-    pg, pi = pipeline(gen), pipeline(idx)
-    ctx.instance("R12.2", gen.where(), f"table pipeline: filter `{pg[0]}` validate={pg[1]} sort key `{pg[2]}`")
-    ctx.instance("R12.2", idx.where(), f"index pipeline: filter `{pi[0]}` validate={pi[1]} sort key `{pi[2]}`")
-    if pg != pi or None in pg:
-        ctx.violation("R12.2", "ColorService", f"pipelines differ: {pg} vs {pi}", idx.where(),
-                      f"colour table and colour index are computed by different pipelines: table {pg}, index {pi}")
-    if pg[2] is not None and "_name_to_type[X]" not in pg[2]:
-        ctx.violation("R12.2", gen.short, f"sort key {pg[2]}", gen.where(), "dense colour table is not ordered by the master index")
-    # table: one entry per sorted colour, unconditionally, after a single leading default entry
-    loops = [n for n in walk_no_nested(gen.node) if isinstance(n, ast.For) and isinstance(n.iter, ast.Name) and n.iter.id == "sorted_colors"]
-    if len(loops) != 1:
-        ctx.violation("R12.2", gen.short, "dense loop", gen.where(), "dense colour table is not built by one loop over the sorted colours")
-    else:
-        lp = loops[0]
-        cond = [x for s in lp.body for x in ast.walk(s) if isinstance(x, (ast.If, ast.Continue, ast.Break, ast.IfExp))]
-        apps = [x for s in lp.body for x in ast.walk(s) if isinstance(x, ast.Call) and isinstance(x.func, ast.Attribute) and x.func.attr in ("append", "extend")]
-        ctx.instance("R12.2", gen.where(lp), f"dense table loop: {len(apps)} append(s), conditional constructs: {len(cond)}")
-        if cond or len(apps) != 1:
+    consumers = 0
+    accs: set[str] = set()
+    for lp in [n for n in walk_no_nested(gen.node) if isinstance(n, ast.For)]:
+        c = classify(lp.iter)
+        if c is None:
+            continue
+        apps = [x for st in lp.body for x in ast.walk(st) if isinstance(x, ast.Call) and isinstance(x.func, ast.Attribute) and x.func.attr in ("append", "extend", "insert")]
+        aug = [x for st in lp.body for x in ast.walk(st) if isinstance(x, ast.AugAssign)]
+        if not apps and not aug:
+            continue
+        consumers += 1
+        accs.update(x.func.value.id for x in apps if isinstance(x.func.value, ast.Name))
+        if c[0] in ("derived", "filtered"):
+            ctx.instance("R12.2", gen.where(lp), f"dense table loop iterates `{c[1]}`, not the sorted colours themselves")
+            ctx.violation("R12.2", gen.short, "dense loop", gen.where(lp),
+                          f"the dense colour table is built from `{c[1]}`, a filtered / de-duplicated derivative of the sorted colours, while the index counts one position per sorted colour")
+            continue
+        cond = [x for st in lp.body for x in ast.walk(st) if isinstance(x, (ast.If, ast.Continue, ast.Break, ast.IfExp))]
+        ctx.instance("R12.2", gen.where(lp), f"dense table loop: {len(apps) + len(aug)} append(s), conditional constructs: {len(cond)}")
+        if cond or len(apps) + len(aug) != 1:
             ctx.violation("R12.2", gen.short, "conditional table entry", gen.where(lp),
                           "the dense colour table does not emit exactly one entry per sorted colour (entries are skipped or added "
                           "conditionally) while the index counts one position per colour")
-        else:
-            arg = unparse(apps[0].args[0])
-            if "_name_to_rtf" not in unparse(lp) or "rtf_code" not in arg and "_name_to_rtf" not in arg:
-                ctx.violation("R12.2", gen.short, "entry " + arg, gen.where(lp), "colour table entries are not the master RTF definitions of the colours")
-    heads = [unparse(n.value) for n in walk_no_nested(gen.node) if isinstance(n, ast.Assign) and unparse(n.targets[0]) == "rtf_parts"]
-    for h in heads:
-        lit = ast.literal_eval(h) if h.startswith("[") else None
-        ok = isinstance(lit, list) and len(lit) == 1 and lit[0].replace("\n", "") == "{\\colortbl;"
-        ctx.instance("R12.2", gen.where(), f"colour table head {h}")
-        if not ok:
-            ctx.violation("R12.2", gen.short, "table head " + h, gen.where(), f"colour table must start with the group opener and exactly one default entry, found {h}")
-    # index = position + 1, missing colour -> 0
-    rets = [unparse(r.value) for r in walk_no_nested(idx.node) if isinstance(r, ast.Return) and r.value is not None]
-    ctx.instance("R12.2", idx.where(), f"index returns {rets}")
-    if "sorted_colors.index(color) + 1" not in rets:
-        ctx.violation("R12.2", idx.short, f"returns {rets}", idx.where(), "dense colour index is not `position in the sorted list + 1`")
-    # black / empty -> 0 on both sides
+            continue
+        entry = apps[0].args[-1] if apps else aug[0].value
+        shown = unparse(resolve(entry, gen.node)) + (" <- " + unparse(c[1]) if c[0] == "mapped" else "")
+        if "_name_to_rtf" not in shown and "rtf_code" not in shown:
+            ctx.gap("R12.2", f"{gen.short}: table entry `{shown[:80]}` is not recognised as the master RTF definition of the colour")
+    for x in walk_no_nested(gen.node):
+        # comprehension forms: acc.extend(f(c) for c in sorted) / "".join(f(c) for c in sorted)
+        if isinstance(x, ast.Call) and isinstance(x.func, ast.Attribute) and x.func.attr in ("extend", "join") and x.args \
+                and isinstance(x.args[0], (ast.ListComp, ast.GeneratorExp)):
+            c = classify(x.args[0])
+            if c is None:
+                continue
+            consumers += 1
+            if x.func.attr == "extend" and isinstance(x.func.value, ast.Name):
+                accs.add(x.func.value.id)
+            ctx.instance("R12.2", gen.where(x), f"dense table entries by comprehension: {c[0]}")
+            if c[0] in ("derived", "filtered"):
+                ctx.violation("R12.2", gen.short, "conditional table entry" if c[0] == "filtered" else "dense loop", gen.where(x),
+                              f"the dense colour table is built from `{c[1]}`: not one entry per sorted colour, while the index counts one position per colour")
+            elif "_name_to_rtf" not in unparse(c[1]) and "rtf_code" not in unparse(c[1]):
+                ctx.gap("R12.2", f"{gen.short}: table entry `{unparse(c[1])[:80]}` is not recognised as the master RTF definition of the colour")
+    if consumers == 0:
+        ctx.gap("R12.2", f"{gen.short}: no loop or comprehension turning the sorted colours into table entries could be re-identified")
+    for nm in sorted(accs or {"rtf_parts"}):
+        for h in asg.get(nm, []):
+            if not isinstance(h, ast.List):
+                continue
+            txt = unparse(h)
+            try:
+                lit = ast.literal_eval(h)
+            except Exception:
+                lit = None
+            ctx.instance("R12.2", gen.where(h), f"colour table head {txt}")
+            if lit is None:
+                ctx.gap("R12.2", f"{gen.short}: colour table head `{txt[:60]}` is not a literal")
+            elif not (len(lit) == 1 and isinstance(lit[0], str) and lit[0].replace("\n", "") == "{\\colortbl;"):
+                ctx.violation("R12.2", gen.short, "table head " + txt, gen.where(h), f"colour table must start with the group opener and exactly one default entry, found {txt}")
+    # ---- index = position in the sorted list + 1
+    rets = [r for r in walk_no_nested(idx.node) if isinstance(r, ast.Return) and r.value is not None]
+    pos_rets = []
+    for r in rets:
+        v = resolve(r.value, idx.node)
+        for c in ast.walk(v):
+            if isinstance(c, ast.Call) and isinstance(c.func, ast.Attribute) and c.func.attr == "index" and len(c.args) == 1:
+                pos_rets.append((r, v, c))
+                break
+    ctx.instance("R12.2", idx.where(), f"index returns {[unparse(r.value) for r in rets]}")
+    if not pos_rets:
+        ctx.gap("R12.2", f"{idx.short}: no return computing a position with .index() could be re-identified")
+    for r, v, c in pos_rets:
+        lf = linform(v)
+        term = unparse(c)
+        if lf != {term: 1, "": 1}:
+            ctx.violation("R12.2", idx.short, f"returns {[unparse(r.value)]}", idx.where(r), f"dense colour index `{unparse(r.value)}` is not `position in the sorted list + 1`")
+        base = c.func.value
+        # resolve() has already replaced a single-assignment name by its defining expression
+        if not ((isinstance(base, ast.Name) and base.id in pi["names"]) or ast.dump(base) == ast.dump(resolve(pi["node"], idx.node))):
+            if any(isinstance(x, ast.Call) and dotted(x.func) == "sorted" for x in ast.walk(base)) or (isinstance(base, ast.Name) and base.id in mutated(idx.node)):
+                ctx.gap("R12.2", f"{idx.short}: the list searched by `{unparse(r.value)[:60]}` could not be matched with the sorted pipeline")
+            else:
+                ctx.violation("R12.2", idx.short, f"position in {unparse(base)[:40]}", idx.where(r), f"the position is taken in `{unparse(base)[:60]}`, not in the list sorted by the master index")
+    # ---- black / empty -> 0: in the emitters' lookup or in the service
     sink = pm.func(SINK)
-    first_if = next((s for s in sink.node.body if isinstance(s, ast.If)), None)
-    ok0 = first_if is not None and "black" in unparse(first_if.test) and isinstance(first_if.body[0], ast.Return) and unparse(first_if.body[0].value) == "0"
-    ctx.instance("R12.2", sink.where(), f"default colour short-circuit in {SINK}: {ok0}")
+    ok0 = []
+    for fi in (sink, idx):
+        for r in walk_no_nested(fi.node):
+            if isinstance(r, ast.Return) and isinstance(r.value, ast.Constant) and r.value.value == 0 and type(r.value.value) is int:
+                if any("'black'" in a or '"black"' in a for a in guard_atoms(guards(r, fi.node), fi.node)):
+                    ok0.append(fi.short)
+    ctx.instance("R12.2", sink.where(), f"default colour short-circuit (empty/black -> 0) in {sorted(set(ok0))}")
     if not ok0:
-        ctx.violation("R12.2", SINK, "default colour", sink.where(), "index 0 (default colour) is no longer returned for empty/black")
-    # emitters reference indices only through the sink
-    n = 0
+        ctx.gap("R12.2", f"no `return 0` guarded by a test for 'black' found in {sink.short} / {idx.short}")
+    # ---- emitters reference indices only through the sink
     for fi in pm.iter_funcs():
         for node in walk_no_nested(fi.node):
             if isinstance(node, ast.JoinedStr):
                 for i, v in enumerate(node.values):
-                    if isinstance(v, ast.Constant) and isinstance(v.value, str) and re.search(r"\\(cf|cb|chcbpat|brdrcf|highlight)$", v.value):
+                    if isinstance(v, ast.Constant) and isinstance(v.value, str) and re.search(r"\\(cf|cb|chcbpat|brdrcf|highlight|clcbpat|clcfpat)$", v.value):
                         nxt = node.values[i + 1] if i + 1 < len(node.values) else None
                         if isinstance(nxt, ast.FormattedValue):
-                            n += 1
-                            src_e = nxt.value
-                            txt = unparse(src_e)
-                            if isinstance(src_e, ast.Name):
-                                a = [x for x in walk_no_nested(fi.node) if isinstance(x, ast.Assign) and len(x.targets) == 1 and unparse(x.targets[0]) == txt]
-                                if len(a) == 1:
-                                    txt = unparse(a[0].value)
-                            ok = "_get_color_index" in txt
+                            txt = unparse(resolve(nxt.value, fi.node))
+                            ok = "_get_color_index" in txt or LOOKUP in txt
                             ctx.instance("R12.2", fi.where(node), f"{fi.short}: colour control word {v.value[-8:]} parameter <- {txt}")
                             if not ok:
                                 ctx.violation("R12.2", fi.short, f"{v.value[-8:]} <- {txt}", fi.where(node),
@@ -243,44 +702,327 @@ def r12_2(ctx: Ctx) -> None:
     ctx.floor("R12.2", 8)
 
 
-def r12_3(ctx: Ctx) -> None:
+class PathFlow:
+    """May-analysis: which attribute paths rooted at a parameter flow into the value a function returns or yields.
+    The function's syntax tree is interpreted over sets of items ('p', path) / ('s', string constant); containers and
+    their elements are collapsed, control flow is ignored (every statement may run), repo callees - methods, static
+    helpers, generators, nested closures that fill a variable of the enclosing function - are interpreted with their
+    arguments bound, external calls hand on the union of receiver and arguments.  `getattr(x, name)` needs the possible
+    names as string constants (a literal, a loop variable over a constant tuple, a module constant)."""
+    MUT = {"add", "append", "update", "extend", "insert", "setdefault", "appendleft", "union_update"}
+    OPAQUE = {"isinstance", "len", "bool", "type", "hasattr", "callable", "id", "print", "repr", "range"}
+
+    def __init__(self, pm, cg: CallGraph):
+        self.pm, self.cg = pm, cg
+        self.unknown: list[str] = []
+        self.stack: list = []
+
+    class Env:
+        def __init__(self, parent=None):
+            self.v: dict[str, set] = {}
+            self.parent = parent
+
+        def find(self, name):
+            e = self
+            while e is not None:
+                if name in e.v:
+                    return e
+                e = e.parent
+            return None
+
+        def add(self, name, items, local=True):
+            e = self.find(name) if not local else (self.find(name) or self)
+            (e or self).v.setdefault(name, set()).update(items)
+
+    def run(self, fi, args: dict[str, set], parent: "PathFlow.Env | None" = None) -> set:
+        key = (fi.short, tuple(sorted((k, tuple(sorted(v))) for k, v in args.items())))
+        if key in self.stack or len(self.stack) > 12:
+            return set()
+        self.stack.append(key)
+        env = PathFlow.Env(parent)
+        for k, v in args.items():
+            env.v[k] = set(v)
+        ret: set = set()
+        for _ in range(2):
+            self._block(fi, fi.node.body, env, ret)
+        self.stack.pop()
+        return ret
+
+    # ---- statements
+    def _bind(self, fi, target, items, env):
+        if isinstance(target, ast.Name):
+            env.add(target.id, items)
+        elif isinstance(target, (ast.Tuple, ast.List)):
+            for e in target.elts:
+                self._bind(fi, e, items, env)
+        elif isinstance(target, ast.Starred):
+            self._bind(fi, target.value, items, env)
+        elif isinstance(target, (ast.Attribute, ast.Subscript)):
+            base = target
+            while isinstance(base, (ast.Attribute, ast.Subscript)):
+                base = base.value
+            if isinstance(base, ast.Name) and isinstance(target, ast.Subscript):
+                env.add(base.id, items)
+
+    def _block(self, fi, stmts, env, ret):
+        for s in stmts:
+            if isinstance(s, (ast.FunctionDef, ast.AsyncFunctionDef, ast.ClassDef, ast.Import, ast.ImportFrom, ast.Pass, ast.Break, ast.Continue)):
+                continue
+            if isinstance(s, ast.Assign):
+                v = self.ev(fi, s.value, env, ret)
+                for t in s.targets:
+                    self._bind(fi, t, v, env)
+            elif isinstance(s, ast.AnnAssign):
+                if s.value is not None:
+                    self._bind(fi, s.target, self.ev(fi, s.value, env, ret), env)
+            elif isinstance(s, ast.AugAssign):
+                self._bind(fi, s.target, self.ev(fi, s.value, env, ret), env)
+            elif isinstance(s, ast.Return):
+                if s.value is not None:
+                    ret.update(self.ev(fi, s.value, env, ret))
+            elif isinstance(s, (ast.For, ast.AsyncFor)):
+                items = self.ev(fi, s.iter, env, ret)
+                for n in ast.walk(s.target):
+                    # a loop variable is re-bound by its loop: forget what an earlier loop left in it
+                    if isinstance(n, ast.Name) and isinstance(n.ctx, ast.Store):
+                        (env.find(n.id) or env).v[n.id] = set()
+                self._bind(fi, s.target, items, env)
+                for _ in range(2):
+                    self._block(fi, s.body, env, ret)
+                self._block(fi, s.orelse, env, ret)
+            elif isinstance(s, ast.While):
+                self.ev(fi, s.test, env, ret)
+                for _ in range(2):
+                    self._block(fi, s.body, env, ret)
+                self._block(fi, s.orelse, env, ret)
+            elif isinstance(s, ast.If):
+                self.ev(fi, s.test, env, ret)
+                self._block(fi, s.body, env, ret)
+                self._block(fi, s.orelse, env, ret)
+            elif isinstance(s, (ast.With, ast.AsyncWith)):
+                for it in s.items:
+                    v = self.ev(fi, it.context_expr, env, ret)
+                    if it.optional_vars is not None:
+                        self._bind(fi, it.optional_vars, v, env)
+                self._block(fi, s.body, env, ret)
+            elif isinstance(s, ast.Try):
+                self._block(fi, s.body, env, ret)
+                for h in s.handlers:
+                    self._block(fi, h.body, env, ret)
+                self._block(fi, s.orelse, env, ret)
+                self._block(fi, s.finalbody, env, ret)
+            elif isinstance(s, ast.Expr):
+                self.ev(fi, s.value, env, ret)
+            elif isinstance(s, ast.Match):
+                v = self.ev(fi, s.subject, env, ret)
+                for case in s.cases:
+                    for n in ast.walk(case.pattern):
+                        nm = getattr(n, "name", None)
+                        if isinstance(nm, str):
+                            env.add(nm, v)
+                    self._block(fi, case.body, env, ret)
+            elif isinstance(s, (ast.Raise, ast.Assert, ast.Delete, ast.Global, ast.Nonlocal)):
+                continue
+
+    # ---- expressions
+    def ev(self, fi, e, env, ret) -> set:
+        if e is None:
+            return set()
+        if isinstance(e, ast.Constant):
+            return {("s", e.value)} if isinstance(e.value, str) else set()
+        if isinstance(e, ast.Name):
+            holder = env.find(e.id)
+            if holder is not None:
+                return set(holder.v[e.id])
+            r = self.pm.resolve(fi.module, e.id)
+            if r and r[0] == "value":
+                c = const_name(self.pm, fi.module, e.id)
+                if c is not NOC:
+                    out = set()
+
+                    def strs(x):
+                        if isinstance(x, str):
+                            out.add(("s", x))
+                        elif isinstance(x, (list, tuple, set, frozenset)):
+                            for y in x:
+                                strs(y)
+                        elif isinstance(x, dict):
+                            for y in list(x) + list(x.values()):
+                                strs(y)
+                    strs(c)
+                    return out
+            return set()
+        if isinstance(e, ast.Attribute):
+            return {("p", it[1] + (e.attr,)) for it in self.ev(fi, e.value, env, ret) if it[0] == "p"}
+        if isinstance(e, ast.Subscript):
+            self.ev(fi, e.slice, env, ret)
+            return self.ev(fi, e.value, env, ret)
+        if isinstance(e, (ast.List, ast.Tuple, ast.Set)):
+            return set().union(*[self.ev(fi, x, env, ret) for x in e.elts]) if e.elts else set()
+        if isinstance(e, ast.Dict):
+            return set().union(*[self.ev(fi, x, env, ret) for x in e.values]) if e.values else set()
+        if isinstance(e, ast.Starred):
+            return self.ev(fi, e.value, env, ret)
+        if isinstance(e, ast.IfExp):
+            self.ev(fi, e.test, env, ret)
+            return self.ev(fi, e.body, env, ret) | self.ev(fi, e.orelse, env, ret)
+        if isinstance(e, ast.BoolOp):
+            return set().union(*[self.ev(fi, x, env, ret) for x in e.values])
+        if isinstance(e, ast.BinOp):
+            return self.ev(fi, e.left, env, ret) | self.ev(fi, e.right, env, ret)
+        if isinstance(e, ast.UnaryOp):
+            self.ev(fi, e.operand, env, ret)
+            return set()
+        if isinstance(e, ast.Compare):
+            self.ev(fi, e.left, env, ret)
+            for c in e.comparators:
+                self.ev(fi, c, env, ret)
+            return set()
+        if isinstance(e, ast.NamedExpr):
+            v = self.ev(fi, e.value, env, ret)
+            self._bind(fi, e.target, v, env)
+            return v
+        if isinstance(e, (ast.ListComp, ast.SetComp, ast.GeneratorExp, ast.DictComp)):
+            inner = PathFlow.Env(env)
+            for _ in range(2):
+                for g in e.generators:
+                    items = self.ev(fi, g.iter, inner, ret)
+                    for n in ast.walk(g.target):
+                        if isinstance(n, ast.Name):
+                            inner.v.setdefault(n.id, set()).update(items)
+                    for c in g.ifs:
+                        self.ev(fi, c, inner, ret)
+            if isinstance(e, ast.DictComp):
+                return self.ev(fi, e.value, inner, ret)
+            return self.ev(fi, e.elt, inner, ret)
+        if isinstance(e, ast.Yield):
+            ret.update(self.ev(fi, e.value, env, ret))
+            return set()
+        if isinstance(e, ast.YieldFrom):
+            ret.update(self.ev(fi, e.value, env, ret))
+            return set()
+        if isinstance(e, ast.Await):
+            return self.ev(fi, e.value, env, ret)
+        if isinstance(e, ast.Call):
+            return self._call(fi, e, env, ret)
+        return set()
+
+    def _call(self, fi, c: ast.Call, env, ret) -> set:
+        d = dotted(c.func)
+        argv = [self.ev(fi, a, env, ret) for a in c.args]
+        kwv = {k.arg: self.ev(fi, k.value, env, ret) for k in c.keywords}
+        if d == "getattr" and len(c.args) >= 2:
+            names = [it[1] for it in argv[1] if it[0] == "s"]
+            if not names:
+                self.unknown.append(f"{fi.short}: attribute name of `{unparse(c)[:60]}` is not a known constant")
+            out = {("p", it[1] + (n,)) for it in argv[0] if it[0] == "p" for n in names}
+            return out | (argv[2] if len(argv) > 2 else set())
+        if d in self.OPAQUE:
+            return set()
+        recv = self.ev(fi, c.func.value, env, ret) if isinstance(c.func, ast.Attribute) else set()
+        if isinstance(c.func, ast.Attribute) and c.func.attr in self.MUT and isinstance(c.func.value, ast.Name) \
+                and not self.cg.resolve_call(fi, c):
+            items = set().union(*argv) if argv else set()
+            for v in kwv.values():
+                items |= v
+            env.add(c.func.value.id, items, local=False)
+            return set()
+        before = id(c) in self.cg.imprecise
+        cands = self.cg.resolve_call(fi, c)
+        if cands and (before or id(c) in self.cg.imprecise):
+            cands = []                               # resolved by method name only: treat as external
+        if cands and len(cands) <= 4:
+            out = set()
+            for callee in cands:
+                a = callee.node.args
+                pos = [x.arg for x in list(a.posonlyargs) + list(a.args)]
+                args: dict[str, set] = {}
+                if callee.cls and callee.parent is None and not callee.is_static and pos:
+                    args[pos[0]] = recv
+                    pos = pos[1:]
+                for nm, v in zip(pos, argv):
+                    args[nm] = v
+                if a.vararg is not None and len(argv) > len(pos):
+                    args[a.vararg.arg] = set().union(*argv[len(pos):])
+                for nm, v in kwv.items():
+                    if nm is not None:
+                        args[nm] = v
+                for nm in pos + [x.arg for x in a.kwonlyargs]:
+                    args.setdefault(nm, set())
+                parent = env if callee.parent is not None else None
+                out |= self.run(callee, args, parent)
+            return out
+        out = set(recv)
+        for v in argv:
+            out |= v
+        for v in kwv.values():
+            out |= v
+        return out
+
+
+def emitted_colour_attributes(pm) -> set[str]:
+    """colour attributes that emitters turn into indices: bound to TextContent.color / background_color / Border.color"""
+    from ..astmatch import resolve
+    emitted = set()
+    for fi in pm.iter_funcs():
+        for c in walk_no_nested(fi.node):
+            if isinstance(c, ast.Call) and _last(c) in ("TextContent", "Border"):
+                for k in c.keywords:
+                    if k.arg not in ("color", "background_color"):
+                        continue
+                    v = resolve(k.value, fi.node) if isinstance(k.value, ast.Name) else k.value
+                    if isinstance(v, ast.Call):
+                        for a in list(v.args) + [kk.value for kk in v.keywords]:
+                            if isinstance(a, ast.Constant) and isinstance(a.value, str) and "color" in a.value:
+                                emitted.add(a.value)
+    return emitted
+
+
+def r12_3(ctx: Ctx, cg: CallGraph) -> None:
     pm = ctx.pm
     col = pm.func("ColorService.collect_document_colors")
-    txt = unparse(col.node)
     doc_fields = pm.all_fields("RTFDocument")
-    comp_fields = []
+    comp_fields = {}
     for f, decl in doc_fields.items():
         ann = unparse(decl.annotation)
         cs = [t for t in re.findall(r"[A-Za-z_][A-Za-z_0-9]*", ann) if t in pm.classes and "TextAttributes" in pm.mro(t)]
         if cs:
-            comp_fields.append(f)
-    # colour attributes that emitters turn into indices (bound to TextContent.color/background_color/Border.color)
-    emitted = set()
-    for fi in pm.iter_funcs():
-        for c in walk_no_nested(fi.node):
-            if isinstance(c, ast.Call) and dotted(c.func).split(".")[-1] in ("TextContent", "Border"):
-                for k in c.keywords:
-                    if k.arg in ("color", "background_color") and isinstance(k.value, ast.Call) and k.value.args and isinstance(k.value.args[0], ast.Constant):
-                        emitted.add(k.value.args[0].value)
-                    elif k.arg in ("color", "background_color") and isinstance(k.value, ast.Name):
-                        a = [x for x in walk_no_nested(fi.node) if isinstance(x, ast.Assign) and len(x.targets) == 1 and unparse(x.targets[0]) == k.value.id]
-                        if len(a) == 1 and isinstance(a[0].value, ast.Call) and a[0].value.args and isinstance(a[0].value.args[0], ast.Constant):
-                            emitted.add(a[0].value.args[0].value)
+            comp_fields[f] = cs
+    emitted = emitted_colour_attributes(pm)
+    a = col.node.args
+    params = [x.arg for x in list(a.posonlyargs) + list(a.args)]
+    if col.cls and not col.is_static:
+        params = params[1:]
+    if not params:
+        ctx.gap("R12.3", f"{col.short} takes no document parameter")
+        return
+    pf = PathFlow(pm, cg)
+    got = pf.run(col, {params[0]: {("p", ())}})
+    pairs = {it[1] for it in got if it[0] == "p" and len(it[1]) == 2}
+    ctx.extra["collected_pairs"] = sorted(".".join(p) for p in pairs)
+    for msg in dict.fromkeys(pf.unknown):
+        ctx.gap("R12.3", msg)
+    if not pairs:
+        ctx.gap("R12.3", f"no attribute of the document could be followed into the result of {col.short}")
+        return
     for f in sorted(comp_fields):
-        has = f"document.{f}" in txt
-        ctx.instance("R12.3", col.where(), f"collector reads document.{f}: {has}")
-        if not has:
+        attrs = sorted(p[1] for p in pairs if p[0] == f)
+        ctx.instance("R12.3", col.where(), f"collector reads document.{f}: {bool(attrs)} {attrs}")
+        if not attrs:
             ctx.violation("R12.3", col.short, f"component {f}", col.where(), f"colours of document.{f} are not collected: references resolve to index 0 or a missing entry")
-    for a in sorted(emitted):
-        has = a in txt
-        ctx.instance("R12.3", col.where(), f"emitted colour attribute {a} collected: {has}")
+    for at in sorted(emitted):
+        has = any(p[1] == at for p in pairs)
+        ctx.instance("R12.3", col.where(), f"emitted colour attribute {at} collected: {has}")
         if not has:
-            ctx.violation("R12.3", col.short, f"attribute {a}", col.where(), f"emitters resolve {a} to a colour index but the collector never reads it")
-    # every component group extracts every emitted attribute
-    for a in sorted(emitted):
-        cnt = txt.count(a)
-        if cnt < 3:
-            ctx.violation("R12.3", col.short, f"attribute {a} only {cnt}x", col.where(), f"{a} is collected for only {cnt} of the 3 component groups (body, text components, column headers)")
+            ctx.violation("R12.3", col.short, f"attribute {at}", col.where(), f"emitters resolve {at} to a colour index but the collector never reads it")
+            continue
+        # every component that carries the attribute contributes it
+        for f in sorted(comp_fields):
+            if not any(p[0] == f for p in pairs):
+                continue
+            carries = any(at in pm.all_fields(c) for c in comp_fields[f])
+            if carries and (f, at) not in pairs:
+                ctx.violation("R12.3", col.short, f"attribute {at} of {f}", col.where(), f"document.{f}.{at} is turned into a colour index by the emitters but is not collected into the colour table")
     ctx.floor("R12.3", 9)
 
 
@@ -327,62 +1069,110 @@ def r12_5(ctx: Ctx) -> None:
     if len(set(lens.values())) != 1:
         ctx.violation("R12.5", "FontMapping.get_font_table", f"column lengths {lens}", fi.where(), "font table columns have different lengths (zip(strict=True) raises)")
     legal = ft.get("type", [])
-    # emitted ids
+    # emitted ids: the \fN control words of the table come from a constant range
+    from ..astmatch import resolve
+    from ..consteval import const_expr
+    from ..linform import linform
     ids = None
     for n in walk_no_nested(fi.node):
-        if isinstance(n, ast.ListComp) and isinstance(n.elt, ast.JoinedStr) and "\\\\f" in unparse(n.elt):
+        if isinstance(n, (ast.ListComp, ast.GeneratorExp)) and isinstance(n.elt, ast.JoinedStr) and len(n.generators) == 1 and \
+                any(isinstance(v, ast.Constant) and isinstance(v.value, str) and v.value.endswith("\\f") for v in n.elt.values):
             g = n.generators[0]
-            from ..consteval import const_expr
-            rng = const_expr(pm, fi.module, g.iter)
+            it = g.iter
+            while isinstance(it, ast.Call) and dotted(it.func) == "enumerate" and it.args:
+                it = it.args[0]
+            rng = const_expr(pm, fi.module, resolve(it, fi.node))
             if rng is not NOC:
-                ids = list(rng)
+                try:
+                    ids = [int(x) for x in rng]
+                except Exception:
+                    ids = None
     ctx.instance("R12.5", fi.where(), f"emitted font ids {ids}; legal font numbers {legal}")
-    if ids is None or sorted(ids) != sorted(n - 1 for n in legal):
+    if ids is None:
+        ctx.gap("R12.5", f"{fi.short}: the \\fN identifiers of the font table could not be evaluated")
+    elif sorted(ids) != sorted(n - 1 for n in legal):
         ctx.violation("R12.5", fi.short, f"ids {ids} vs legal {legal}", fi.where(), "emitted \\fN ids are not {font number - 1} for the legal font numbers")
-    strict = any(isinstance(c, ast.Call) and dotted(c.func) == "zip" and any(k.arg == "strict" for k in c.keywords) for c in walk_no_nested(fi.node))
-    if not strict:
-        ctx.violation("R12.5", fi.short, "zip not strict", fi.where(), "font table columns are zipped without strict=True (a short column silently drops fonts)")
+    zips = [c for c in walk_no_nested(fi.node) if isinstance(c, ast.Call) and dotted(c.func) == "zip"]
+    lax = [c for c in zips if not any(k.arg == "strict" and isinstance(k.value, ast.Constant) and k.value.value is True for k in c.keywords)]
+    if lax:
+        ctx.violation("R12.5", fi.short, "zip not strict", fi.where(lax[0]), "font table columns are zipped without strict=True (a short column silently drops fonts)")
     # reference: \f{font - 1}
     tf = pm.func("TextContent._get_text_formatting")
     refs = []
     for n in walk_no_nested(tf.node):
         if isinstance(n, ast.JoinedStr):
             for i, v in enumerate(n.values):
-                if isinstance(v, ast.Constant) and isinstance(v.value, str) and v.value.endswith("\\f") and i + 1 < len(n.values):
-                    refs.append(unparse(n.values[i + 1].value))
-    ctx.instance("R12.5", tf.where(), f"font reference expressions {refs}")
-    from ..linform import linform
+                if isinstance(v, ast.Constant) and isinstance(v.value, str) and v.value.endswith("\\f") and i + 1 < len(n.values) \
+                        and isinstance(n.values[i + 1], ast.FormattedValue):
+                    refs.append(n.values[i + 1].value)
+    ctx.instance("R12.5", tf.where(), f"font reference expressions {[unparse(r) for r in refs]}")
     for r in refs:
-        e = ast.parse(r, mode="eval").body
+        e = resolve(r, tf.node)
         while isinstance(e, ast.Call) and dotted(e.func) in ("int", "round") and len(e.args) == 1:
             e = e.args[0]
         lf = linform(e)
         if lf != {"self.font": 1, "": -1}:
-            ctx.violation("R12.5", tf.short, "font ref " + r, tf.where(), f"font reference is `{r}`, expected font number - 1")
+            if set(lf) - {""} == {"self.font"}:
+                ctx.violation("R12.5", tf.short, "font ref " + unparse(r), tf.where(), f"font reference is `{unparse(r)}`, expected font number - 1")
+            else:
+                ctx.gap("R12.5", f"{tf.short}: font reference `{unparse(r)[:60]}` is not a linear function of self.font")
     if not refs:
-        ctx.violation("R12.5", tf.short, "no font ref", tf.where(), "text runs no longer select a font")
-    # validator legal set
-    v = pm.func("TextAttributes.validate_text_font")
-    ok = "_font_type()['type']" in unparse(v.node) or '_font_type()["type"]' in unparse(v.node)
-    ctx.instance("R12.5", v.where(), f"font validator checks membership in the font table's type column: {ok}")
-    if not ok:
-        ctx.violation("R12.5", v.short, "font legal set", v.where(), "font numbers are no longer validated against the font table")
+        ctx.gap("R12.5", f"{tf.short}: no \\f control word with a computed parameter could be re-identified")
+    # validator legal set: the validator of text_font tests membership in the font table's numbers
+    vs = [f for f in pm.iter_funcs() if (f.validator_fields() or ([], ""))[0] and "text_font" in f.validator_fields()[0]]
+    if not vs:
+        ctx.gap("R12.5", "no field validator of text_font could be re-identified")
+    checked = False
+    for v in vs:
+        tests = [c for c in walk_no_nested(v.node) if isinstance(c, ast.Compare) and len(c.ops) == 1 and isinstance(c.ops[0], (ast.In, ast.NotIn))]
+        verdicts = []
+        for c in tests:
+            dom = resolve(c.comparators[0], v.node)
+            txt = unparse(dom)
+            if ("_font_type" in txt or "get_font_table" in txt) and "type" in txt:
+                verdicts.append("table")
+                continue
+            val = const_expr(pm, v.module, dom)
+            if val is not NOC:
+                try:
+                    verdicts.append("same" if sorted(val) == sorted(legal) else f"other {sorted(val)}")
+                except Exception:
+                    verdicts.append("unknown")
+            else:
+                verdicts.append("unknown")
+        if not tests:
+            continue
+        ctx.instance("R12.5", v.where(), f"font validator membership tests against: {verdicts}")
+        bad = [x for x in verdicts if x.startswith("other")]
+        if bad:
+            ctx.violation("R12.5", v.short, "font legal set", v.where(), f"font numbers are validated against {bad[0][6:]}, not the font table's numbers {sorted(legal)}")
+        checked = checked or any(x in ("table", "same") for x in verdicts)
+    if vs and not checked:
+        ctx.gap("R12.5", f"no membership test against the font table's numbers could be re-identified in the validators of text_font ({[v.short for v in vs]})")
 
 
 def check(ctx: Ctx) -> None:
     cg = CallGraph(ctx.pm)
     ctx.explain(
-        "R12.1 typestate propagated over the call graph from rtf_encode: a call site is 'in context' if its function was "
-        "entered in context, or it is dominated (CFG with exceptional edges) by set_document_context and not reachable from "
-        "clear_document_context; the context-dependent lookup Utils._get_color_index must never be entered out of context. "
-        "R12.2 generate_rtf_color_table and get_rtf_color_index normalise to the same filter/validate/sort pipeline; one "
-        "unconditional entry per colour after one default entry; index = position + 1; colour control words take their "
-        "parameter only from the lookup. R12.3 collector reads every component and every emitted colour attribute. "
-        "R12.4 657-row master table integrity (exhaustive). R12.5 font ids = legal numbers - 1, strict zip, \\f{font-1}.")
+        "R12.1 the colour context protocol is recognised by role (set: set_document_context / entering a `with` on a context "
+        "manager that establishes the context on every path to its yield; clear: clear_document_context / leaving such a with / "
+        "ContextVar.set(None)); a forward must-analysis over each function's CFG (with exceptional edges) decides whether the "
+        "context is established at a call site, and the state is propagated over the call graph from rtf_encode (typestate); "
+        "every function that resolves a colour index through the context must only be entered in context; findings are "
+        "reported per out-of-context call edge of the function that manages the context; the context and the colour table come "
+        "from the document being encoded and an established context is never re-bound. "
+        "R12.2 generate_rtf_color_table and get_rtf_color_index resolve (through temporaries) to the same filter/validate/sort "
+        "pipeline ordered by the master index; the table consumes the sorted list itself (not a filtered / de-duplicated "
+        "derivative) with one unconditional entry per colour after one default entry; index = position in that list + 1 "
+        "(linear form); colour control words take their parameter only from the lookup. R12.3 abstract interpretation of the "
+        "collector over attribute paths of the document (helpers, generators, closures, getattr over constant name tables are "
+        "followed): every component and, for every component, every colour attribute that emitters turn into an index flows "
+        "into the collected set. R12.4 657-row master table integrity (exhaustive). R12.5 font ids = legal numbers - 1, "
+        "strict zip, \\f{font-1}, validator membership in the font table's numbers.")
     ctx.assume("RTF readers resolve \\cfN/\\cbN/\\chcbpatN against the document's \\colortbl, index 0 = default")
     ctx.undecided("that each concrete element carries the colour the user asked for (follows from R12.1-3 plus C09's binding rules)")
     r12_1(ctx, cg)
     r12_2(ctx)
-    r12_3(ctx)
+    r12_3(ctx, cg)
     r12_4(ctx)
     r12_5(ctx)
